@@ -1,6 +1,74 @@
 (* C10 (ring part) -- ring.Ring: Of/New/Join/Pop rearrange elements into exactly the documented
-   cycles; At/Peek/Len/Each report positions within the current cycle.
-   Only statements, each closed by [exact] of a lemma proved in Ring/RingProofs*.v. *)
-From Coq Require Import ZArith List.
+   cycles (nothing lost or duplicated, Next and Prev mutually inverse); At/Peek/Len/Each report
+   positions within the current cycle.
+   Only statements, each closed by [exact] of a lemma proved in Ring/RingProofs*.v.
+
+   Model: Ring/RingModel.v ([run]: a history of operations on a heap of (Value, prev, next) cells,
+   mirroring ring.go; branch conditions from Gen/RingIdx.v).
+   Reference: Ring/RingSpec.v ([a_run]: a set of disjoint cyclic sequences of element names plus
+   the value of every name; each operation is the picture of the Go doc comment on lists). *)
+From Coq Require Import ZArith List Permutation.
 Import ListNotations.
-From Mds Require Import Ring.RingModel.
+From Mds Require Import Ring.RingModel Ring.RingSpec Ring.RingProofsBase Ring.RingProofsRep Ring.RingProofs.
+
+(* Refinement over histories: for every element type, every zero value and EVERY list of
+   operations (New, Of, Join, Pop, Next, Prev, At, Peek, Len, Each with a callback stopping at any
+   call, IsEmpty; handles nil or any element handed out so far), starting from the empty heap, the
+   model's outputs -- returned handles, values, lengths, enumerations, nil-dereference panics --
+   are exactly those of the abstract cyclic sequences. *)
+Theorem C10_ring_refinement : forall (T : Type) (zero : T) (ops : list (op T)),
+  run T zero empty_heap ops = a_run T zero (a_empty T zero) ops.
+Proof. exact ring_refinement. Qed.
+Print Assumptions C10_ring_refinement.
+
+Example C10_ring_refinement_ex :
+  run nat 0 empty_heap
+    [OOf [11;12;13;14]; OOf [21;22]; OJoin (Some 1) (Some 4); OEach (Some 0) 0; OLen (Some 5);
+     OJoin (Some 0) (Some 4); OEach (Some 0) 0; OEach (Some 3) 0; OPop (Some 4); OEach (Some 0) 0;
+     OAt (Some 0) (-1); OPeek (Some 0) 2; OPrev (Some 0); ONext None]
+  = [RPtr (Some 0); RPtr (Some 4); RPtr (Some 0); REach [11;12;13;14;21;22]; RLen 6;
+     RPtr (Some 3); REach [11;21;22]; REach [12;13;14]; RPtr (Some 4); REach [11;22];
+     RPtr (Some 5); RPeek 0 false; RPtr (Some 5); RPanic].
+Proof. vm_compute. reflexivity. Qed.
+
+(* No operation of any history exhausts its loop budget: scan (Len, Each), At/Peek and New
+   terminate on every reachable heap. *)
+Theorem C10_ring_no_hang : forall (T : Type) (zero : T) (ops : list (op T)),
+  ~ In RFuel (run T zero empty_heap ops).
+Proof. exact ring_no_hang. Qed.
+Print Assumptions C10_ring_no_hang.
+
+(* The heap reached by any history is represented by the abstract state reached by the same
+   history (Rep: the abstract cycles partition the allocated cells, each is linked in the heap by
+   next and, backwards, by prev, closing on itself; values agree). *)
+Theorem C10_ring_wellformed : forall (T : Type) (zero : T) (ops : list (op T)),
+  Rep T (run_heap T zero empty_heap ops) (a_run_state T zero (a_empty T zero) ops).
+Proof. exact ring_reachable_rep. Qed.
+Print Assumptions C10_ring_wellformed.
+
+(* Next and Prev are mutually inverse on every cell of every reachable heap. *)
+Theorem C10_ring_links_inverse : forall (T : Type) (zero : T) (ops : list (op T)) (a : addr),
+  let h := run_heap T zero empty_heap ops in
+  a < size h ->
+  (exists b, b < size h /\ nx T h a = Some b /\ pv T h b = Some a) /\
+  (exists c, c < size h /\ pv T h a = Some c /\ nx T h c = Some a).
+Proof. exact ring_links_inverse. Qed.
+Print Assumptions C10_ring_links_inverse.
+
+Example C10_ring_links_inverse_ex :
+  let h := run_heap nat 0 empty_heap [OOf [1;2;3]; OOf [4;5]; OJoin (Some 2) (Some 3); OPop (Some 0)] in
+  size h = 5 /\ nx nat h 2 = Some 3 /\ pv nat h 3 = Some 2 /\ nx nat h 0 = Some 0.
+Proof. vm_compute. auto. Qed.
+
+(* Nothing lost or duplicated: after any history the abstract cycles are non-empty and together
+   contain every name handed out exactly once. *)
+Theorem C10_ring_partition : forall (T : Type) (zero : T) (ops : list (op T)),
+  let st := a_run_state T zero (a_empty T zero) ops in
+  Permutation (concat (cycles st)) (seq 0 (acount st)) /\ Forall (fun c => c <> []) (cycles st).
+Proof. exact ring_partition. Qed.
+Print Assumptions C10_ring_partition.
+
+Example C10_ring_partition_ex :
+  cycles (a_run_state nat 0 (a_empty nat 0) [OOf [1;2;3]; OOf [4;5]; OJoin (Some 2) (Some 3); OPop (Some 0)])
+  = [[0]; [2; 3; 4; 1]].
+Proof. vm_compute. reflexivity. Qed.
